@@ -29,7 +29,7 @@ func init() {
 			"resolution 0 (alias of 960), resolutions above 32767 (clamped) and more than 65535 tracks are outside the stated domain",
 			"messages are non-empty smf.Message values: channel messages, FF type VLQ payload metas in canonical form, F0/F7 sysex and escape messages",
 		},
-		Require: []string{"bank_reads", "dumps_among_notes", "histories", "smpte_files", "rs_elisions_by_writer", "delta_ge_2^28", "early_close", "add_after_close", "variadic_add", "unclosed_tracks", "files_with_more_than_65536_events", "tracks_added_again_after_more_adds", "end_of_track_inside_multi_message_add", "events_compared", "norunningstatus_files", "file_roundtrips", "read_modify_write_values", "concurrent_roundtrips", "vlq_width_combinations"},
+		Require: []string{"bank_reads", "dumps_among_notes", "histories", "smpte_files", "rs_elisions_by_writer", "delta_ge_2^28", "early_close", "add_after_close", "variadic_add", "unclosed_tracks", "files_with_more_than_65536_events", "tracks_added_again_after_more_adds", "end_of_track_inside_multi_message_add", "end_of_track_messages_with_data_added", "tracks_extended_or_closed_after_smf_add", "events_compared", "norunningstatus_files", "file_roundtrips", "read_modify_write_values", "concurrent_roundtrips", "vlq_width_combinations"},
 		Run:     runC01,
 	})
 }
@@ -40,7 +40,7 @@ type apiValue struct {
 	sh   *ref.File
 	desc []string
 	// feature counts
-	early, afterClose, variadic, unclosed, bigDelta, readded, eotInVariadic int
+	early, afterClose, variadic, unclosed, bigDelta, readded, eotInVariadic, eotWithData, lateOps int
 }
 
 func (a *apiValue) log(f string, v ...any) {
@@ -162,6 +162,7 @@ func buildHistory(r *mon.Rand, maxDelta uint32, allowBig bool) *apiValue {
 		}
 		return d
 	}
+	var open []bool // per track of the value: handed to SMF.Add without an end of track
 	for t := 0; t < nt; t++ {
 		var tr smf.Track
 		var sh []ref.Ev
@@ -171,9 +172,13 @@ func buildHistory(r *mon.Rand, maxDelta uint32, allowBig bool) *apiValue {
 				if closed {
 					return
 				}
-				sh = append(sh, ref.Ev{Delta: d, Msg: append([]byte(nil), m...)}) // the model keeps its own copy
-				if bytes.Equal(m, ref.EOT) {
+				if ref.IsEOT(m) {
+					// an end-of-track meta message ends the track for every reader, also when the caller built it with
+					// data (MetaUndefined(0x2F, data)): the track holds the end of track, what follows is ignored
+					sh = append(sh, ref.Ev{Delta: d, Msg: ref.EOT})
 					closed = true
+				} else {
+					sh = append(sh, ref.Ev{Delta: d, Msg: append([]byte(nil), m...)}) // the model keeps its own copy
 				}
 				d = 0
 			}
@@ -204,6 +209,10 @@ func buildHistory(r *mon.Rand, maxDelta uint32, allowBig bool) *apiValue {
 					// the end-of-track message in the middle of one multi-message Add: what follows it in the
 					// same call comes after the track was closed and is ignored like any Add after Close
 					ms[r.Intn(len(ms))] = smf.EOT
+					if r.P(1, 3) {
+						ms[r.Intn(len(ms))] = smf.MetaUndefined(0x2F, r.Bytes(r.Range(1, 4)))
+						a.eotWithData++
+					}
 					a.eotInVariadic++
 				}
 				d := delta()
@@ -216,6 +225,14 @@ func buildHistory(r *mon.Rand, maxDelta uint32, allowBig bool) *apiValue {
 				a.log("track %d: Add(%d, %d messages)", t, d, n)
 			case x == 2 && r.P(1, 6): // adding the end-of-track message itself
 				d := delta()
+				if r.P(1, 2) {
+					m := smf.MetaUndefined(0x2F, r.Bytes(r.Range(1, 4)))
+					tr.Add(d, m)
+					shAdd(d, m)
+					a.eotWithData++
+					a.log("track %d: Add(%d, MetaUndefined(0x2F, ...) = % X)", t, d, []byte(m))
+					break
+				}
 				tr.Add(d, smf.EOT)
 				shAdd(d, ref.EOT)
 				a.log("track %d: Add(%d, EOT)", t, d)
@@ -248,6 +265,7 @@ func buildHistory(r *mon.Rand, maxDelta uint32, allowBig bool) *apiValue {
 			sh = append(sh, ref.Ev{Delta: 0, Msg: ref.EOT}) // WriteTo closes with delta 0
 		}
 		a.sh.Tracks = append(a.sh.Tracks, sh)
+		open = append(open, !closed)
 		if len(a.sh.Tracks) > 1 && a.sh.Format == 0 {
 			a.sh.Format = 1
 		}
@@ -279,11 +297,43 @@ func buildHistory(r *mon.Rand, maxDelta uint32, allowBig bool) *apiValue {
 				sh = append(sh, ref.Ev{Delta: 0, Msg: ref.EOT})
 			}
 			a.sh.Tracks = append(a.sh.Tracks, sh)
+			open = append(open, !closed)
 			if a.sh.Format == 0 {
 				a.sh.Format = 1
 			}
 			a.readded++
 			t++
+		}
+	}
+	// late calls on a track of the value itself (the exported Tracks field): more messages and the Close that was
+	// left out, after other tracks were added. Only that track changes.
+	if r.P(1, 5) {
+		for i := range open {
+			if !open[i] || !r.P(1, 2) {
+				continue
+			}
+			sh := a.sh.Tracks[i]
+			sh = append([]ref.Ev(nil), sh[:len(sh)-1]...) // without the end of track that WriteTo would have added
+			closed := false
+			for k, n := 0, r.Intn(3); k < n && !closed; k++ {
+				m := randomMsg(r, nil, false)
+				d := delta()
+				a.s.Tracks[i].Add(d, m)
+				sh = append(sh, ref.Ev{Delta: d, Msg: append([]byte(nil), m...)})
+				a.log("SMF.Tracks[%d].Add(%d, % X)", i, d, head(m, 12))
+			}
+			if r.P(2, 3) {
+				d := delta()
+				a.s.Tracks[i].Close(d)
+				sh = append(sh, ref.Ev{Delta: d, Msg: ref.EOT})
+				closed = true
+				a.log("SMF.Tracks[%d].Close(%d)", i, d)
+			}
+			if !closed {
+				sh = append(sh, ref.Ev{Delta: 0, Msg: ref.EOT})
+			}
+			a.sh.Tracks[i] = sh
+			a.lateOps++
 		}
 	}
 	return a
@@ -395,6 +445,8 @@ func c01Check(c *mon.Ctx, a *apiValue, label string) {
 	c.Count("unclosed_tracks", int64(a.unclosed))
 	c.Count("tracks_added_again_after_more_adds", int64(a.readded))
 	c.Count("end_of_track_inside_multi_message_add", int64(a.eotInVariadic))
+	c.Count("end_of_track_messages_with_data_added", int64(a.eotWithData))
+	c.Count("tracks_extended_or_closed_after_smf_add", int64(a.lateOps))
 	c.Count("delta_ge_2^28", int64(a.bigDelta))
 	if countEvents(a.sh) > len(a.sh.Tracks) {
 		c.DistinctBytes(b)
